@@ -60,3 +60,19 @@ Definition kagrees (c : cmp) (k : kcase) : bool :=
 (* the support library of the source tie (tools/py2gallina_c05.py, harness/lv/c05_tie.py) is required here only so
    that the targeted build of the check compiles it; nothing above uses it *)
 From LV Require Goose.GenC05Tie.
+
+(* ---- whole state tree: input / proposed (update_state through the interface) / returned state of mh_step,
+   leaf by leaf over xnum (int and bool leaves as integers); NaN equals NaN, +inf equals +inf, ... ---- *)
+Fixpoint xlist_eqb (a b : list xnum) : bool :=
+  match a, b with
+  | [], [] => true
+  | x :: r, y :: s => xeqb x y && xlist_eqb r s
+  | _, _ => false
+  end.
+
+Record mhcase_st := mkCaseSt { st_case : mhcase; st_in : list xnum; st_prop : list xnum; st_out : list xnum }.
+
+Definition agrees_st (c : cmp) (k : mhcase_st) : bool :=
+  let b := st_case k in
+  let o2 := mh_decide (fun _ => i_p b) c (c_cur b) (c_prop b) (c_corr b) (c_u b) in
+  agrees c b && xlist_eqb (mh_select o2 (st_prop k) (st_in k)) (st_out k).
